@@ -65,7 +65,21 @@ BITS_LIMIT = 50
 
 
 # ------------------------------------------------------------------------------------------------
-def _structure(rng, n, kind, aux=True, sharding=False):
+INF_STANDIN = "7"
+
+
+def _standin(x):
+    """the same JSON value with every +infinity replaced by the model's finite stand-in"""
+    if isinstance(x, str):
+        return INF_STANDIN if x == sp.INF else x
+    if isinstance(x, list):
+        return [_standin(v) for v in x]
+    if isinstance(x, dict):
+        return {k: _standin(v) for k, v in x.items()}
+    return x
+
+
+def _structure(rng, n, kind, aux=True, sharding=False, inf_leaf=False):
     shape = rng.choice(sp.PSHAPES)
     gens = sp.random_gens(rng, with_aux=aux)
     if sharding:
@@ -88,6 +102,13 @@ def _structure(rng, n, kind, aux=True, sharding=False):
            "jit": True, "val": None}
     seg["params"] = sp.random_params(rng, shape)
     seg["loss"] = sp.random_loss(rng, sum(sp.leaf_sizes(seg["params"])), gens, bilinear=(kind == "bilinear"))
+    if inf_leaf:
+        # an equation parameter that no loss term reads holds +infinity (e.g. an unused carrying capacity): it is
+        # not NaN, its gradient is 0, nothing stops the loop.  It is the LAST leaf, so the flat indices of the loss
+        # are unchanged; the model is run with the finite stand-in INF_STANDIN in its place.
+        seg["shape"] = {"nn": dict(shape["nn"]), "eq": {**shape["eq"], "zinf": 0}}
+        seg["params"]["eq"]["zinf"] = sp.INF
+        seg["track"] = sp.random_track(rng, seg["shape"])
     if sharding:
         seg["sharding"] = True
         seg["jit"] = False
@@ -144,6 +165,9 @@ def gen_cases(rng, tier):
     for n, m in (((2, 3),) if tier == "quick" else ((1, 1), (2, 3), (4, 2), (5, 4))):
         base = _structure(rng, n, "linear", sharding=True)
         cases.append({"kind": "resume", "segs": [base], "m": m})
+    for n in ((4, 9) if tier == "quick" else (1, 3, 4, 9, 12)):
+        base = _structure(rng, n, "linear", aux=False, inf_leaf=True)
+        cases.append({"kind": "single", "segs": [base, _variant(rng, base)]})
     # a validation module that never requests a stop must not disturb anything the property names: the tracked
     # histories are the post-update values of EVERY iteration, also between two invocations and after an
     # invocation that did not improve (where the "best" parameters lag behind the current ones)
@@ -237,6 +261,9 @@ def _requests(case, obs):
     """[(label, request)]"""
     out = []
     for seg, rec in zip(case["segs"], obs["runs"]):
+        if seg["params"]["eq"].get("zinf") == sp.INF:
+            seg = {**seg, "params": _standin(seg["params"])}
+            rec = {k: (_standin(v) if k in ("A", "B") else v) for k, v in rec.items()}
         n = int(seg["n"])
         out.append(("run", {"op": "c07", "prog": sp.lean_prog(seg, rec["batches"][:n], rec["gens"][:n + 1]),
                             "obs": rec["A"]}))
@@ -302,6 +329,8 @@ def tags(case, obs):
         out.append("validation_module(no_stop)")
     if seg.get("verbose"):
         out.append("verbose=True")
+    if seg["params"]["eq"].get("zinf") == sp.INF:
+        out.append("infinite_unused_parameter")
     tr = seg.get("track")
     out.append("track=none" if tr is None else ("track=holes" if (tr["nn"] is None or tr["eq"] is None or
                any(v is None for g in ("nn", "eq") if tr[g] for v in tr[g].values())) else "track=all"))
